@@ -100,6 +100,9 @@ def seq_container(ctx, driver, trace_module, model_checks, depth, shards=8, extr
 @handler("C05")
 def c05(ctx):
     def after(ctx, files):
+        # design level: the linked queue as written (never-empty list + counter) is the ideal queue, also across
+        # drain and refill
+        ctx.model_check("LinkedQS", "LinkedQS_q.cfg")
         return vlib.binding_a(ctx, "QueueGen", ["QueueGen_q.cfg", "QueueGen_l.cfg"], "queue", "tree", "QueueTrace")
     return seq_container(ctx, "queue", "QueueTrace", [("QueueMC", "QueueMC.cfg")],
                          depth=dict(quick=6, thorough=8), after=after)
@@ -108,6 +111,10 @@ def c05(ctx):
 @handler("C06")
 def c06(ctx):
     def after(ctx, files):
+        # design level: the linked stack as written answers wrongly at Pop (KF-C06-1 reproduced); with a Pop that
+        # hands back the node it unlinks it is the ideal stack
+        ctx.model_check("LinkedQS", "LinkedQS_s.cfg", expect_violation="Answers")
+        ctx.model_check("LinkedQS", "LinkedQS_sfixed.cfg")
         return vlib.binding_a(ctx, "StackGen", ["StackGen_s.cfg", "StackGen_l.cfg"], "stack", "tree", "StackTrace")
     return seq_container(ctx, "stack", "StackTrace", [("StackMC", "StackMC.cfg")],
                          depth=dict(quick=7, thorough=9),
@@ -314,6 +321,15 @@ def c20(ctx):
     # non-vacuity: with the early hand-out of a stored trailing trigger (the defect repaired by 87aefa9) enabled
     # as an action, the spacing invariant fails
     ctx.model_check("ThrottleMC", "ThrottleMC_kf.cfg", expect_violation="Spacing")
+    # design level: the debouncer and the throttle as written, one action per critical section, timers firing
+    # without the lock; each with its negative controls
+    ctx.model_check("DebounceImpl", "DebounceImpl%s.cfg" % deep, workers=8)
+    ctx.model_check("DebounceImpl", "DebounceImpl_nolock.cfg", expect_violation="OneArmed")
+    ctx.model_check("DebounceImpl", "DebounceImpl_nostop.cfg", expect_violation="OneArmed")
+    ctx.model_check("ThrottleImpl", "ThrottleImpl.cfg")
+    ctx.model_check("ThrottleImpl", "ThrottleImpl_nt.cfg")
+    ctx.model_check("ThrottleImpl", "ThrottleImpl_early.cfg", expect_violation="Spacing")
+    ctx.model_check("ThrottleImpl", "ThrottleImpl_unlocked.cfg", expect_violation="NoLostWakeup")
     nviol = 0
     out = os.path.join(ctx.scratch, "t", "debounce")
     summ = ctx.drive_procs("debounce", ["-out", out, "-depth", dict(quick=5, thorough=7)[ctx.tier]], 8)
